@@ -243,19 +243,31 @@ def expected_pattern_lookup(chk, F, rule, cfg):
                 other = [x.data[1] for x in q.calls(r'binary_search|partition_point|Iterator>?::(position|find|nth|skip|rev)$')]
                 chk.ob(rule, 'the pattern named in a wrong-order error is the slot owner found by the selector\'s own lookup, in that method\'s list', okl and okd and oks and not other, config=cfg, fn=cf,
                        site='expected:lookup', what='expected-pattern lookup: lookups=%d debug=%d other=%s' % (len(lookups), len(dbg), other), found={'lookups': len(lookups), 'debug_pattern': len(dbg), 'other_search': other})
-    chk.floor(rule, 'paths of the expected-pattern search closures', n, 3, config=cfg)
+    chk.floor(rule, 'paths of the expected-pattern search closures', n, 2, config=cfg)
 
 
 def pattern_indices(chk, F, rule, cfg):
     dp = F.fn('fn_mocker::FnMocker::debug_pattern')
-    for p in symex.Interp(F).run(dp):
-        locs = list(p.calls(r'CallPattern::debug_location$'))
-        ok = len(locs) == 1 and strip(locs[0].data[2][1]) == ('param', 0, 2)
-        recv = locs[0].data[2][0] if locs else ('unk', '')
-        indexed = mentions(recv, lambda x: x[0] == 'index' or (x[0] == 'ref' and any(e[0] == 'idx' for e in x[1][1])) or
-                           (is_call(x, r'Index<I>>?::index$|SliceIndex.*::index$') and field_path(x[2][0]) == (('param', 0, 1), ['call_patterns'])))
-        ok = ok and indexed and mentions(recv, lambda x: x == ('param', 0, 2) or (x[0] == 'field' and strip(x[1]) == ('param', 0, 2)))
-        chk.ob(rule, 'debug_pattern(i) describes pattern i of this method', ok, config=cfg, fn=dp, site='debug_pattern', what='debug_pattern receiver %s' % show(recv)[:100], found=show(recv)[:200])
+    # debug_pattern as a whole (CallPattern::debug_location and the location constructor, where they exist, are part of it):
+    # the description is built from this method's info and from pattern i's own matcher debug info, or else from the index i itself
+    dl_inline = lambda f_, d_, n_: bool(re.search(r'CallPattern::debug_location$|CallPatternLocation::new$', f_.defp))  # noqa: E731
+    n = 0
+    for p in symex.Interp(F, inline=dl_inline).run(dp):
+        news = list(p.calls(r'CallPatternDebug::new$'))
+        ok = len(news) == 1 and p.outcome[0] == 'return' and strip(p.outcome[1])[0] == 'call' and strip(p.outcome[1])[3] == news[0].data[3]
+        if ok:
+            n += 1
+            info, loc = strip(news[0].data[2][0]), strip(news[0].data[2][1])
+            ok = field_path(info) == (('param', 0, 1), ['info']) and loc[0] == 'agg'
+            if ok and loc[3] == 'PatIndex':
+                ok = strip(loc[4][0][1]) == ('param', 0, 2)
+            elif ok:
+                pay = loc[4][0][1] if loc[4] else ('unk', '')
+                ok = mentions(pay, lambda x: x[0] == 'field' and x[2] == 'matcher_debug') and \
+                    mentions(pay, lambda x: (x[0] == 'index' and field_path(x[1])[1][-1:] == ['call_patterns'] and mentions(x[2], lambda y: y == ('param', 0, 2))) or
+                             (is_call(x, r'Index<I>>?::index$|SliceIndex.*::index$') and field_path(x[2][0]) == (('param', 0, 1), ['call_patterns']) and mentions(x[2][1], lambda y: y == ('param', 0, 2))))
+        chk.ob(rule, 'debug_pattern(i) describes pattern i of this method', ok, config=cfg, fn=dp, site='debug_pattern', what='debug_pattern description', found=[show(e.data[2][1])[:120] for e in news])
+    chk.floor(rule, 'paths of debug_pattern', n, 2, config=cfg)
     # the diagnostics loop in eval_dyn and the ordered arm: collect_from_reporter(index of the very pattern the reporter was filled for)
     for fname in ('eval::DynCtx::eval_dyn', 'eval::DynCtx::match_call_pattern'):
         fn = F.fn(fname)
